@@ -184,5 +184,25 @@ def run_tie(chk, names, n_cases: int | None = None) -> dict:
             for a in ax or []:
                 if a not in chk.assumptions:
                     chk.assumptions.append(a)
+    # thorough tier: independent re-check (coqchk) of every equivalence library and all it depends on
+    if chk.tier == "thorough":
+        import re as _re
+        from vlib.core import COQ, sh
+
+        libs = sorted({TIE[n]["vo"][:-3].replace("/", ".") for n in names if res[n]["proof"]})
+
+        def chk_one(lib):
+            rc, out, err = sh(["timeout", "1500", "coqchk", "-silent", "-o", "-Q", ".", "TV", "TV." + lib], cwd=COQ, timeout=1530)
+            return lib, rc, out + err
+
+        with ThreadPoolExecutor(max_workers=3) as ex:
+            for lib, rc, txt in ex.map(chk_one, libs):
+                chk.extra.setdefault("tie_coqchk", {})[lib] = {
+                    "exit": rc,
+                    "axioms": _re.findall(r"^\s+([A-Za-z_][\w.']*)\s*$", txt.split("* Axioms:")[-1], flags=_re.M)[:60] if "* Axioms:" in txt else [],
+                    "tail": txt.strip().splitlines()[-4:]}
+                if rc != 0 and rc != 124:
+                    chk.broken.append({"kind": "proof", "tie": [n for n in names if TIE[n]["vo"][:-3].replace("/", ".") == lib],
+                                       "what": "coqchk rejects the equivalence library", "coqchk_output_tail": txt[-2000:]})
     chk.extra.setdefault("tie", {}).update(res)
     return res
